@@ -117,6 +117,39 @@ theorem linearizable_complete (s : SSt) (cs order : List CCall) (hw : LinWitness
     (hwf : ∀ c ∈ cs, c.inv ≤ c.ret) : linearizable s cs = true :=
   linSearch_complete _ _ _ _ _ hw hwf (Nat.le_refl _)
 
+/-! ## traversals whose callback modifies the list -/
+
+/-- once the callback's one action is behind it, the loop is the plain walk -/
+theorem walkMut_zero (fwd : Bool) (act : St → Nat → St) (f : Nat) (s : St) (e : Nat) :
+    walkMut fwd act f 0 s e = (s, if fwd then walkF s f e else walkB s f e) := by
+  induction f generalizing e with
+  | zero => cases fwd <;> simp [walkMut, walkF, walkB]
+  | succ f ih =>
+    by_cases he : e = 0
+    · subst he; cases fwd <;> simp [walkMut, walkF, walkB]
+    · cases fwd
+      · have := ih (prevOf s e)
+        simp only [walkMut, he, if_false, Nat.zero_sub, walkB]
+        simp at this ⊢
+        rw [this]; simp
+      · have := ih (nextOf s e)
+        simp only [walkMut, he, if_false, Nat.zero_sub, walkF]
+        simp at this ⊢
+        rw [this]; simp
+
+/-- before the callback acts, the loop delivers the value and advances in the unchanged list -/
+theorem walkMut_before (fwd : Bool) (act : St → Nat → St) (f k : Nat) (s : St) (e : Nat) (he : e ≠ 0) :
+    walkMut fwd act (f + 1) (k + 2) s e =
+      ((walkMut fwd act f (k + 1) s (if fwd then nextOf s e else prevOf s e)).1,
+       valueOf s e :: (walkMut fwd act f (k + 1) s (if fwd then nextOf s e else prevOf s e)).2) := by
+  simp [walkMut, he]
+
+/-- at its `k`-th call the callback acts and the loop advances **in the list as the callback left it** -/
+theorem walkMut_acts (fwd : Bool) (act : St → Nat → St) (f : Nat) (s : St) (e : Nat) (he : e ≠ 0) :
+    walkMut fwd act (f + 1) 1 s e =
+      (act s e, valueOf s e :: (if fwd then walkF (act s e) f (nextOf (act s e) e) else walkB (act s e) f (prevOf (act s e) e))) := by
+  cases fwd <;> simp [walkMut, he, walkMut_zero]
+
 /-! ## the wrapper protocol -/
 namespace TS
 variable {σ O R : Type}
